@@ -300,6 +300,12 @@ func (a *Adapter) Project(ctx sdk.Context) any {
 	if bz := st.Get(types.LastObservedEventNonceKey); len(bz) > 0 {
 		lastObs = int64(binary.BigEndian.Uint64(bz))
 	}
+	var obsExt int64
+	if bz := st.Get(types.LastObservedBlockHeightKey); len(bz) > 0 {
+		var h types.LastObservedBlockHeight
+		cdc.MustUnmarshal(bz, &h)
+		obsExt = int64(h.ExternalBlockHeight)
+	}
 	votes := make([]map[string][]string, a.MaxNonce)
 	observed := make([]map[string]bool, a.MaxNonce)
 	pending := make([]bool, a.MaxNonce)
@@ -360,7 +366,7 @@ func (a *Adapter) Project(ctx sdk.Context) any {
 	}
 	return map[string]any{
 		"reg": reg, "online": online, "approved": approved, "power": power, "bridger": bridger, "bidx": bidx,
-		"last": last, "delegated": delegated, "pen": pen, "totalPower": total, "lastObs": lastObs,
+		"last": last, "delegated": delegated, "pen": pen, "totalPower": total, "lastObs": lastObs, "obsExt": obsExt,
 		"votes": votes, "observed": observed, "pending": pending, "effects": effects,
 	}
 }
